@@ -782,7 +782,9 @@ def _skip_event(*events, **kwargs):
             else:
                 old = Undefined if e.old is None else _getattrr(e.old.param[p], what, None)
                 new = Undefined if e.new is None else _getattrr(e.new.param[p], what, None)
-            if not Comparator.is_equal(old, new):
+            # (the very same object, e.g. a sub-object shared by the old and
+            # the new one, is not a change whatever its type)
+            if old is not new and not Comparator.is_equal(old, new):
                 return False
     return True
 
